@@ -2010,6 +2010,72 @@ structure PySim (K σ τ : Type) where
 end Acn.Gen.Code
 '''
 
+PRELUDE_STOCH = '''/- GENERATED (fixed text) by harness/translate_code.py — do not edit.
+   Representation of the objects of contrib/acnsim/network/stochastic_network.py in the translations of group
+   StochOps (T1c, DESIGN §17): an EV whose `station_id` may be None, an EVSE holding such an EV, the network with its
+   `waiting_queue` (an OrderedDict: association list in insertion order), and the OrderedDict / random operations. -/
+import AcnModel.Gen.CodePrelude
+
+namespace Acn.Gen.Code
+open Acn
+
+/-- `d.items()` -/
+def dictItems {β : Type} (d : List (String × β)) : List (String × β) := d
+
+/-- `del d[k]` (the caller has checked that the key is there) -/
+def dictDel {β : Type} : List (String × β) → String → List (String × β)
+  | [], _ => []
+  | (k', v) :: r, k => if k' = k then r else (k', v) :: dictDel r k
+
+/-- `OrderedDict.move_to_end(k)`: the entry of `k` leaves its position and is appended -/
+def dictMoveToEnd {β : Type} (d : List (String × β)) (k : String) : List (String × β) :=
+  match dictGet? d k with
+  | none => d
+  | some v => dictDel d k ++ [(k, v)]
+
+/-- `OrderedDict.popitem(last=False)`: the OLDEST entry and the rest (`none`: KeyError of an empty dict) -/
+def dictPopFirst? {β : Type} : List (String × β) → Option ((String × β) × List (String × β))
+  | [] => none
+  | kv :: r => some (kv, r)
+
+/-- `dict.popitem()` / `OrderedDict.popitem(last=True)`: the NEWEST entry and the rest -/
+def dictPopLast? {β : Type} (d : List (String × β)) : Option ((String × β) × List (String × β)) :=
+  match d.getLast? with
+  | none => none
+  | some kv => some (kv, d.dropLast)
+
+/-- `random.choice(xs)` is `xs[randbelow(len(xs))]` (IndexError for an empty sequence); the draw is the INPUT `ρ`,
+    any natural number, reduced modulo the length -/
+def pyChoice {α : Type} (ρ : Nat) (xs : List α) : Except PyErr α :=
+  match xs[ρ % xs.length]? with
+  | none => .error .IndexError
+  | some x => .ok x
+
+/-- an `EV` as far as the stochastic network goes: `station_id` may be None (waiting) -/
+structure PyStEv (K : Type) where
+  session : String
+  station : Option String
+  requested : K
+  delivered : K
+
+/-- a `BaseEVSE` holding such an EV -/
+structure PyStEvse (K : Type) where
+  station : String
+  ev : Option (PyStEv K)
+  pilot : K
+
+/-- a `StochasticNetwork`: `_EVSEs`, `waiting_queue`, the constructor flag and the three counters -/
+structure PyStNet (K : Type) where
+  evses : List (String × PyStEvse K)
+  waiting : List (String × PyStEv K)
+  earlyDeparture : Bool
+  swaps : Nat
+  neverCharged : Nat
+  earlyUnplug : Nat
+
+end Acn.Gen.Code
+'''
+
 _KW = {"end", "at", "from", "fun", "match", "with", "then", "else", "if", "do", "in", "let", "have", "show", "by",
        "open", "where", "def", "theorem", "instance", "structure", "class", "deriving", "namespace", "section",
        "variable", "universe", "import", "export", "Type", "Prop", "Sort", "x", "fuel", "rest'"}
@@ -2100,6 +2166,25 @@ OTYPES = {
                       "unplug": {"lean": "netUnplug {recv}", "args": ["String", "Option String"], "mut": True,
                                  "exc": "id", "ret": None, "stateful": True}}},
     "τ": {"methods": {"add_event": {"lean": "queueAdd {recv}", "args": ["Event"], "mut": True, "exc": None, "ret": None}}},
+    # contrib/acnsim/network/stochastic_network.py (group StochOps): an EV whose station may be None, its EVSE, the network
+    "PyStEv K": {"attrs": {"_station_id": ("station", "Option String"), "_session_id": ("session", "String"),
+                           "_requested_energy": ("requested", "K"), "_energy_delivered": ("delivered", "K")},
+                 "props": {"station_id": (EVPY, "EV"), "session_id": (EVPY, "EV"), "requested_energy": (EVPY, "EV"),
+                           "energy_delivered": (EVPY, "EV"), "remaining_demand": (EVPY, "EV"),
+                           "fully_charged": (EVPY, "EV")},
+                 "methods": {"update_station_id": "stev_update_station_id"}},
+    "PyStEvse K": {"attrs": {"_ev": ("ev", "Option (PyStEv K)"), "_current_pilot": ("pilot", "K"),
+                             "_station_id": ("station", "String")},
+                   "props": {"ev": (EVSEPY, "BaseEVSE"), "station_id": (EVSEPY, "BaseEVSE"),
+                             "current_pilot": (EVSEPY, "BaseEVSE")},
+                   "methods": {"plugin": "stevse_plugin", "unplug": "stevse_unplug"}},
+    "PyStNet K": {"attrs": {"_EVSEs": ("evses", "Dict (PyStEvse K)"), "waiting_queue": ("waiting", "Dict (PyStEv K)"),
+                            "early_departure": ("earlyDeparture", "Bool"), "swaps": ("swaps", "Nat"),
+                            "never_charged": ("neverCharged", "Nat"), "early_unplug": ("earlyUnplug", "Nat")},
+                  "methods": {"available_evses": "stnet_available_evses", "plugin": "stnet_plugin",
+                              "unplug": "stnet_unplug", "post_charging_update": "stnet_post_charging_update"},
+                  # `super().plugin(ev)`: ChargingNetwork.plugin, translated again on this representation
+                  "super_methods": {"plugin": "stnet_base_plugin"}},
     "PySim K σ τ": {"attrs": {"network": ("network", "σ"), "event_queue": ("queue", "τ"),
                               "ev_history": ("evHistory", "Dict (Evse.Ev K)"), "_resolve": ("resolve", "Bool"),
                               "_last_schedule_update": ("lastUpd", "Option Int")}},
@@ -2112,6 +2197,8 @@ EXTCALLS = {
                        "ret": None},
     "heapq.heappop": {"lean": "Heap.heappop Event.keyLt", "args": ["place:Array Entry"], "exc": "qErrToPy",
                       "ret": "Entry", "order": "value_state"},
+    # the result of `random.choice` is an input: the draw `ρ` (one call per translated method)
+    "random.choice": {"lean": "pyChoice ρ", "args": ["List String"], "exc": "id", "ret": "String", "draw": "ρ"},
     "UnplugEvent": {"lean": "pyUnplugEvent", "args": ["Int", "Evse.Ev K"], "exc": None, "ret": "Event"},
 }
 
@@ -2142,6 +2229,13 @@ class STr:
         self.mut, self.exc, self.ret = self.t.sig
         self.rd_self = "self"   # what `self` reads as (a property of another object is inlined with it rebound)
         self.fresh = set()      # locals holding a list CREATED here (`[]`, a comprehension) that nobody else can see yet
+        # IN-OUT parameters (objects of the caller that the method mutates: `ev.update_station_id(..)` in
+        # StochasticNetwork.plugin): they are returned next to `self`, `(self, ev) × Except PyErr _`
+        self.inout = [p for p in self.t.params if p[0] in getattr(self.t, "inout", ())]
+        # locals / parameters this method may MUTATE under value semantics: in-out parameters, and objects it has just
+        # taken OUT of a container (`popitem`), until their value is handed on (stored, passed as an argument)
+        self.owned = {p[0] for p in self.inout}
+        self.draws = 0          # external random draws used so far (each declared draw parameter stands for ONE call)
 
     # ------------------------------------------------------------------ small things
     def tmp(self, p="v"):
@@ -2151,7 +2245,13 @@ class STr:
     def ERR(self, e):
         """what a raising path returns: the error — and, in a method that changes its object, the object as it is
         at the moment of the raise (Python keeps what was assigned before an exception)"""
-        return f"(self, .error {e})" if self.mut else f".error {e}"
+        return f"({self.st()}, .error {e})" if self.mut else f".error {e}"
+
+    def st(self):
+        """the state a mutating method returns: `self`, or `(self, ev)` with its in-out parameters"""
+        if not self.inout:
+            return "self"
+        return "(" + ", ".join(["self"] + [p[1] for p in self.inout]) + ")"
 
     def need_exc(self, what):
         if not self.exc:
@@ -2280,7 +2380,8 @@ class STr:
                 # a list that is read (stored somewhere, passed on, returned) may from now on be seen by others:
                 # value semantics would no longer be Python's for a later `append`
                 self.fresh.discard(n.id)
-                return _Place(ln, ty[0] if isinstance(ty, list) else ty, None)
+                w = (lambda nv, ln=ln: [("let", ln, nv)]) if n.id in self.owned else None
+                return _Place(ln, ty[0] if isinstance(ty, list) else ty, w)
             raise Unsupported(f"free name {n.id}")
         if isinstance(n, ast.Attribute):
             base = self.place(n.value, env, pre)
@@ -2327,7 +2428,7 @@ class STr:
             base = self.place(n.value, env, pre)
             d = _targ(base.ty, "Dict")
             if d is not None:
-                k, _ = self.tex(n.slice, env, pre, "String")
+                k = self.dict_key(n.slice, env, pre, for_write)
                 w = (lambda nv, b=base, k=k: b.write(f"(dictSet {b.read} {k} {nv})")) if base.write else None
                 if for_write:
                     return _Place(None, d, w)
@@ -2354,6 +2455,21 @@ class STr:
         s_, ty = self.tex(n, env, pre)
         return _Place(s_, ty, None)
 
+    def dict_key(self, n, env, pre, for_write=False):
+        """the key of `d[k]` / `del d[k]` / `d.move_to_end(k)` on a dict with `str` keys.  A key of type
+        Optional[str] that is None is in no such dict: reading raises KeyError (writing would ADD the key None, which
+        the association list cannot hold: refused)"""
+        if isinstance(n, ast.Constant):
+            return self.tex(n, env, pre, "String")[0]
+        k, kty = self.tex(n, env, pre)
+        if kty == "String":
+            return k
+        if kty == "Option String" and not for_write:
+            v = self.tmp("k")
+            pre.append(("opt", v, k, "KeyError"))
+            return v
+        raise Unsupported(f"dict key {ast.unparse(n)} of type {kty}")
+
     # ------------------------------------------------------------------ expressions
     def tex(self, n, env, pre, want=None):
         """(lean expression, type); partial / mutating sub-expressions are appended to `pre` in evaluation order"""
@@ -2365,6 +2481,9 @@ class STr:
             return self.lit(n, want)
         if isinstance(n, (ast.Name, ast.Attribute, ast.Subscript)):
             p = self.place(n, env, pre)
+            if isinstance(n, ast.Name) and n.id in self.owned:
+                # the object is stored / passed on: another access path exists from now on
+                self.owned.discard(n.id)
             return p.read, p.ty
         if isinstance(n, ast.Tuple):
             ot = self.otype(want) if want else None
@@ -2412,11 +2531,20 @@ class STr:
                 raise Unsupported(f"`is None` of a {lt}")
             return f"({l}).isNone" if isinstance(op, ast.Is) else f"({l}).isSome"
         if isinstance(op, (ast.In, ast.NotIn)):
-            l, _ = self.tex(left, env, pre, "String")
+            if isinstance(left, ast.Constant):
+                l, lt = self.tex(left, env, pre, "String")
+            else:
+                l, lt = self.tex(left, env, pre)
             r, rt = self.tex(right, env, pre)
             if _targ(rt, "Dict") is None:
                 raise Unsupported(f"`in` a {rt}")
-            b = f"(dictGet? {r} {l}).isSome"
+            if lt == "Option String":
+                # `None in d` is False for a dict with `str` keys
+                b = f"(match {l} with | none => false | some k' => (dictGet? {r} k').isSome)"
+            elif lt == "String":
+                b = f"(dictGet? {r} {l}).isSome"
+            else:
+                raise Unsupported(f"`in` with a key of type {lt}")
             return b if isinstance(op, ast.In) else f"(!{b})"
         l, lt, r, rt = self.typed_pair(left, right, env, pre)
         if isinstance(op, (ast.Eq, ast.NotEq)):
@@ -2479,13 +2607,32 @@ class STr:
 
     def comp(self, n, env, pre):
         """`[elt for v in xs if c]` over a list / `d.values()`; `c` and `elt` may be partial"""
-        if len(n.generators) != 1 or n.generators[0].is_async or not isinstance(n.generators[0].target, ast.Name):
-            raise Unsupported("comprehension with several clauses / a pattern target")
+        if len(n.generators) != 1 or n.generators[0].is_async:
+            raise Unsupported("comprehension with several clauses")
         g = n.generators[0]
+        it = g.iter
+        if isinstance(g.target, ast.Tuple):
+            # `for k, v in d.items()`
+            if not (len(g.target.elts) == 2 and all(isinstance(e, ast.Name) for e in g.target.elts)
+                    and isinstance(it, ast.Call) and isinstance(it.func, ast.Attribute) and it.func.attr == "items"
+                    and not it.args and not it.keywords):
+                raise Unsupported("comprehension with a pattern target")
+            kv, vv = (e.id for e in g.target.elts)
+            if kv == vv or any(v in env.vars or v == "self" for v in (kv, vv)):
+                raise Unsupported("comprehension variables shadow another name")
+            d, dty = self.tex(it.func.value, env, pre)
+            el = _targ(dty, "Dict")
+            if el is None:
+                raise Unsupported(f".items() of a {dty}")
+            env2 = env.copy()
+            env2.vars[kv] = (_lname(kv), "String")
+            env2.vars[vv] = (_lname(vv), el)
+            return self.comp_body(n, g, f"(dictItems {d})", f"({_lname(kv)}, {_lname(vv)})", env2, pre)
+        if not isinstance(g.target, ast.Name):
+            raise Unsupported("comprehension with a pattern target")
         var = g.target.id
         if var in env.vars or var == "self":
             raise Unsupported(f"comprehension variable {var} shadows another name")
-        it = g.iter
         if isinstance(it, ast.Call) and isinstance(it.func, ast.Attribute) and it.func.attr == "values" and not it.args \
                 and not it.keywords:
             d, dty = self.tex(it.func.value, env, pre)
@@ -2501,6 +2648,9 @@ class STr:
         lv = _lname(var)
         env2 = env.copy()
         env2.vars[var] = (lv, el)
+        return self.comp_body(n, g, xs, lv, env2, pre)
+
+    def comp_body(self, n, g, xs, lv, env2, pre):
         p2 = []
         conds = [self.tbool(c, env2, p2) for c in g.ifs]
         c = " && ".join(conds) if conds else None
@@ -2604,6 +2754,11 @@ class STr:
             spec = EXTCALLS[fname]
             if n.keywords or len(n.args) != len(spec["args"]):
                 raise Unsupported(f"arguments of {fname}")
+            if spec.get("draw"):
+                # a random draw is an INPUT of the translation: one declared parameter per call
+                self.draws += 1
+                if self.draws > 1 or spec["draw"] not in [p[1] for p in self.t.params if p[0].startswith("$")]:
+                    raise Unsupported(f"{fname}: a draw the tie has no input for")
             args, recv = [], None
             for a, ty in zip(n.args, spec["args"]):
                 if ty.startswith("place:"):
@@ -2637,8 +2792,17 @@ class STr:
                     tyb[0] = f"List {_paren(ety)}"
                 pre.append(("let", ln, f"({ln} ++ [{e}])"))
                 return "()", "Unit"
-            recv = self.place(f.value, env, pre)
+            is_super = isinstance(f.value, ast.Call) and ast.unparse(f.value) == "super()"
+            if is_super:
+                # `super().m(..)`: the base class's method on this object (declared per type in OTYPES)
+                if self.rd_self != "self":
+                    raise Unsupported("super() inside an inlined property")
+                recv = self.place(ast.Name(id="self", ctx=ast.Load()), env, pre)
+            else:
+                recv = self.place(f.value, env, pre)
             rty = recv.ty
+            if _targ(rty, "Dict") is not None and f.attr in ("popitem", "move_to_end"):
+                return self.odict_call(n, f.attr, recv, env, pre)
             if _targ(rty, "Option") is not None:
                 v = self.tmp()
                 pre.append(("opt", v, recv.read, "AttributeError"))
@@ -2646,9 +2810,10 @@ class STr:
                 recv = _Place(v, _targ(rty, "Option"), (lambda nv: w(f"(some {nv})")) if w else None)
                 rty = recv.ty
             ot = self.otype(rty)
-            if ot is None or f.attr not in ot.get("methods", {}):
-                raise Unsupported(f"method {f.attr} of a {rty}")
-            m = ot["methods"][f.attr]
+            table = "super_methods" if is_super else "methods"
+            if ot is None or f.attr not in ot.get(table, {}):
+                raise Unsupported(f"method {f.attr} of a {rty}" + (" (super)" if is_super else ""))
+            m = ot[table][f.attr]
             if isinstance(m, dict):
                 args = self.args_of(n, m["args"], env, pre, fname)
                 expr = " ".join([m["lean"].format(recv=recv.read)] + args + list(m.get("extra", [])))
@@ -2658,9 +2823,23 @@ class STr:
                 return (v or "()"), (ty or "Unit")
             ct = self.sig_of(m)
             cmut, cexc, cret = ct.sig
-            own = [p for p in _resolved(ct, self.tree if ct.rel == self.t.rel else ast.parse(_src(ct.rel))).params
-                   if not p[0].startswith("$")]
-            args = self.args_of(n, [p[2] for p in own], env, pre, fname)
+            ctree = self.tree if ct.rel == self.t.rel else ast.parse(_src(ct.rel))
+            own = [p for p in _resolved(ct, ctree).params if not p[0].startswith("$")]
+            if getattr(ct, "inout", ()):
+                raise Unsupported(f"{m} has in-out parameters")
+            missing = len(own) - len(n.args)
+            if 0 < missing and not n.keywords:
+                # trailing parameters left to their defaults: only `= None` of an Optional parameter
+                cfn = _find_path(ctree, ct.path)[-1]
+                dfl = cfn.args.defaults[len(cfn.args.defaults) - missing:] if missing <= len(cfn.args.defaults) else None
+                if dfl is None or len(dfl) != missing or cfn.args.kwonlyargs or cfn.args.vararg or cfn.args.kwarg:
+                    raise Unsupported(f"{fname} is called with {len(n.args)} arguments")
+                for dv, p_ in zip(dfl, own[len(n.args):]):
+                    if not (isinstance(dv, ast.Constant) and dv.value is None and _targ(p_[2], "Option") is not None):
+                        raise Unsupported(f"default of parameter {p_[0]} of {fname}")
+                args = self.args_of(n, [p[2] for p in own[:len(n.args)]], env, pre, fname) + ["none"] * missing
+            else:
+                args = self.args_of(n, [p[2] for p in own], env, pre, fname)
             extra = [p[1] for p in ct.params if p[0].startswith("$")]
             if ct.fuel and not self.t.fuel:
                 raise Unsupported(f"call of the fuelled {m} from a function without fuel")
@@ -2671,6 +2850,35 @@ class STr:
             return (v or "()"), (ty or "Unit")
         raise Unsupported(f"call {fname}")
 
+    def odict_call(self, n, attr, recv, env, pre):
+        """`d.popitem(last=..)` / `d.move_to_end(k)` of an OrderedDict attribute (an association list in insertion order)"""
+        if recv.write is None:
+            raise Unsupported(f"{attr} on a dict the method cannot write back")
+        self.need_mut(attr)
+        el = _targ(recv.ty, "Dict")
+        if any(isinstance(a, ast.Starred) for a in n.args):
+            raise Unsupported(f"arguments of {attr}")
+        if attr == "popitem":
+            last = True
+            if n.args or [k.arg for k in n.keywords] not in ([], ["last"]):
+                raise Unsupported("arguments of popitem")
+            if n.keywords:
+                kv = n.keywords[0].value
+                if not (isinstance(kv, ast.Constant) and isinstance(kv.value, bool)):
+                    raise Unsupported("popitem(last=<not a literal>)")
+                last = kv.value
+            v, r = self.tmp(), self.tmp("s")
+            pre.append(("opt", f"({v}, {r})", f"{'dictPopLast?' if last else 'dictPopFirst?'} {recv.read}", "KeyError"))
+            pre.extend(recv.write(r))
+            return v, f"Pair String {_paren(el)}"
+        # move_to_end(k) (last=True): KeyError for an unknown key
+        if len(n.args) != 1 or n.keywords:
+            raise Unsupported("arguments of move_to_end")
+        k = self.dict_key(n.args[0], env, pre)
+        pre.append(("opt", "_", f"dictGet? {recv.read} {k}", "KeyError"))
+        pre.extend(recv.write(f"(dictMoveToEnd {recv.read} {k})"))
+        return "()", "Unit"
+
     # ------------------------------------------------------------------ statements
     def mkret(self, v):
         if self.ret is None and v is not None:
@@ -2678,8 +2886,8 @@ class STr:
         if self.ret is not None and v is None:
             raise Unsupported("the method returns nothing, the tie expects a value")
         if self.mut and self.exc:
-            return f"(self, .ok {v if v is not None else '()'})"
-        val = ("(self, " + v + ")" if v is not None else "self") if self.mut else v
+            return f"({self.st()}, .ok {v if v is not None else '()'})"
+        val = (f"({self.st()}, " + v + ")" if v is not None else self.st()) if self.mut else v
         return f".ok {val}" if self.exc else val
 
     def skip(self, s):
@@ -2739,7 +2947,33 @@ class STr:
             tg = s.targets[0]
             pre = []
             env2 = env
-            if isinstance(tg, ast.Name):
+            if isinstance(tg, ast.Tuple):
+                # `a, b = <pair>` (only `d.popitem(..)` produces a pair)
+                if not (len(tg.elts) == 2 and all(isinstance(e, ast.Name) for e in tg.elts)):
+                    raise Unsupported("assignment to a pattern")
+                e, ty = self.tex(s.value, env, pre)
+                m_ = _re.fullmatch(r"Pair (\S+) (.+)", ty)
+                if m_ is None:
+                    raise Unsupported(f"unpacking a {ty}")
+                tys = [m_.group(1), _unparen(m_.group(2))]
+                names = [t_.id for t_ in tg.elts]
+                params = [p[0].lstrip("^$") for p in self.t.params]
+                if names[0] == names[1] != "_" or any(nm == "self" or nm in params for nm in names):
+                    raise Unsupported(f"assignment to {names}")
+                pre.append(("let", "(" + ", ".join("_" if nm == "_" else _lname(nm) for nm in names) + ")", e))
+                env2 = self.after(pre, env)
+                taken_out = isinstance(s.value, ast.Call) and isinstance(s.value.func, ast.Attribute) \
+                    and s.value.func.attr == "popitem"
+                for nm, ty_ in zip(names, tys):
+                    if nm == "_":
+                        continue
+                    if nm in env.vars:
+                        raise Unsupported(f"unpacking into the existing name {nm}")
+                    env2.vars[nm] = (_lname(nm), [ty_])
+                    self.fresh.discard(nm)
+                    if taken_out:
+                        self.owned.add(nm)     # removed from the dict: this local is its only access path here
+            elif isinstance(tg, ast.Name):
                 if tg.id == "self" or tg.id in [p[0].lstrip("^$") for p in self.t.params if p[2] == "-"]:
                     raise Unsupported(f"assignment to {tg.id}")
                 e, ty = self.tex(s.value, env, pre)
@@ -2758,6 +2992,7 @@ class STr:
                     pre.append(("let", ln, e))
                 env2 = self.after(pre, env)
                 env2.vars[tg.id] = (ln, tyb)
+                self.owned.discard(tg.id)
                 if isinstance(s.value, (ast.List, ast.ListComp)):
                     self.fresh.add(tg.id)
                 else:
@@ -2772,6 +3007,34 @@ class STr:
                 env2 = self.after(pre, env)
             out, ind = self.emit(pre, indent)
             return out + self.block(rest, env2, ind, tail)
+        if isinstance(s, ast.AugAssign):
+            # `self.n += e` on a numeric attribute
+            op = {ast.Add: "+", ast.Sub: "-", ast.Mult: "*"}.get(type(s.op))
+            if op is None or not isinstance(s.target, ast.Attribute):
+                raise Unsupported(f"augmented assignment {ast.unparse(s)}")
+            pre = []
+            p = self.place(s.target, env, pre)
+            if p.write is None or p.ty not in ("Nat", "Int", "K") or (op == "-" and p.ty == "Nat"):
+                raise Unsupported(f"augmented assignment to {ast.unparse(s.target)} : {p.ty}")
+            self.need_mut(f"assignment to {ast.unparse(s.target)}")
+            e, _ = self.tex(s.value, env, pre, p.ty)
+            pre.extend(p.write(f"({p.read} {op} {e})"))
+            out, ind = self.emit(pre, indent)
+            return out + self.block(rest, self.after(pre, env), ind, tail)
+        if isinstance(s, ast.Delete):
+            # `del d[k]`: KeyError for an unknown key
+            if len(s.targets) != 1 or not isinstance(s.targets[0], ast.Subscript):
+                raise Unsupported(f"statement {ast.unparse(s)}")
+            pre = []
+            base = self.place(s.targets[0].value, env, pre)
+            if _targ(base.ty, "Dict") is None or base.write is None:
+                raise Unsupported(f"del of an element of a {base.ty}")
+            self.need_mut(ast.unparse(s))
+            k = self.dict_key(s.targets[0].slice, env, pre)
+            pre.append(("opt", "_", f"dictGet? {base.read} {k}", "KeyError"))
+            pre.extend(base.write(f"(dictDel {base.read} {k})"))
+            out, ind = self.emit(pre, indent)
+            return out + self.block(rest, self.after(pre, env), ind, tail)
         if isinstance(s, ast.If):
             return self.if_(s, rest, env, indent, tail)
         if isinstance(s, ast.For):
@@ -2815,8 +3078,11 @@ class STr:
         c = self.tbool(t, env, pre)
         env1 = self.after(pre, env)
         out, ind = self.emit(pre, indent)
+        own0 = set(self.owned)
         a = self.block(list(s.body) + rest, env1.copy(), ind + "  ", tail)
+        own_a, self.owned = self.owned, set(own0)
         b = self.block(list(s.orelse) + rest, env1.copy(), ind + "  ", tail)
+        self.owned &= own_a
         return f"{out}{ind}if {c} then\n{a}\n{ind}else\n{b}"
 
     # ------------------------------------------------------------------ loops
@@ -2864,6 +3130,8 @@ class STr:
             if isinstance(env.vars[k][1], list):
                 self.ltys[id(env.vars[k][1])] = env.vars[k][1]
         names = (["self"] if self.mut else []) + [env.vars[k][0] for k in carried]
+        if self.inout:
+            raise Unsupported("a loop in a method with in-out parameters")
         if not names:
             raise Unsupported("a loop that changes nothing")
         par = lambda ts: " × ".join(_paren(t) if " " in t and not t.startswith("⟦") else t for t in ts)
@@ -3007,6 +3275,10 @@ class STr:
 
     def result_type(self):
         st = _lean_ty(self.t.self_type)
+        if self.inout:
+            if not self.mut:
+                raise Unsupported("in-out parameters of a method that does not change its object")
+            st = " × ".join([_paren(st)] + [_paren(_lean_ty(p[2])) for p in self.inout])
         r = _lean_ty(self.ret) if self.ret is not None else None
         if self.mut and self.exc:
             return f"{_paren(st)} × Except PyErr ({r or 'Unit'})"
@@ -3021,9 +3293,14 @@ class STr:
 
 
 # ---- stateful methods (kind 'state'): each group has its own generated file and its own tie module
-def _st(lean_name, rel, path, self_type, params, sig, group, doc, **kw):
-    return Target(lean_name, rel, None, path[-1], path=path, self_type=self_type, params=params, sig=sig,
-                  kind="state", group=group, doc=doc, **kw)
+def _st(lean_name, rel, path, self_type, params, sig, group, doc, inout=(), **kw):
+    t = Target(lean_name, rel, None, path[-1], path=path, self_type=self_type, params=params, sig=sig,
+               kind="state", group=group, doc=doc, **kw)
+    t.inout = tuple(inout)    # python names of parameters whose object the method mutates (returned next to `self`)
+    return t
+
+
+STOCHPY = "acnportal/contrib/acnsim/network/stochastic_network.py"
 
 
 TARGETS += [
@@ -3070,6 +3347,29 @@ TARGETS += [
          ("event", "event", "PyEvent K")], (True, True, None), "SimEvent",
         "Simulator._process_event (network.plugin / network.unplug / event_queue.add_event are parameters)",
         extra_binders="{σ τ : Type}", noops=("self._print",)),
+    # group StochOps (C19): contrib/acnsim/network/stochastic_network.py on `PyStNet K`, with the methods of EV / BaseEVSE /
+    # ChargingNetwork it calls translated again on the representation whose `station_id` may be None
+    _st("stev_update_station_id", EVPY, ("EV", "update_station_id"), "PyStEv K",
+        [("station_id", "station_id", "Option String")], (True, False, None), "StochOps", "EV.update_station_id"),
+    _st("stevse_plugin", EVSEPY, ("BaseEVSE", "plugin"), "PyStEvse K", [("ev", "ev", "PyStEv K")], (True, True, None),
+        "StochOps", "BaseEVSE.plugin (on an EV whose station may be None)"),
+    _st("stevse_unplug", EVSEPY, ("BaseEVSE", "unplug"), "PyStEvse K", [], (True, False, None), "StochOps",
+        "BaseEVSE.unplug"),
+    _st("stnet_base_plugin", NETPY, ("ChargingNetwork", "plugin"), "PyStNet K",
+        [("ev", "ev", "PyStEv K"), ("station_id", "station_id", "Option String")], (True, True, None), "StochOps",
+        "ChargingNetwork.plugin (the `super().plugin` of StochasticNetwork)"),
+    _st("stnet_available_evses", STOCHPY, ("StochasticNetwork", "available_evses"), "PyStNet K", [],
+        (False, False, "List String"), "StochOps", "StochasticNetwork.available_evses"),
+    _st("stnet_plugin", STOCHPY, ("StochasticNetwork", "plugin"), "PyStNet K",
+        [("$rho", "ρ", "Nat"), ("ev", "ev", "PyStEv K"), ("station_id", "station_id", "Option String")],
+        (True, True, None), "StochOps",
+        "StochasticNetwork.plugin (the result of `random.choice` is the input ρ; `ev` is mutated: returned next to self)",
+        inout=("ev",)),
+    _st("stnet_unplug", STOCHPY, ("StochasticNetwork", "unplug"), "PyStNet K",
+        [("station_id", "station_id", "Option String"), ("session_id", "session_id", "Option String")],
+        (True, True, None), "StochOps", "StochasticNetwork.unplug (station_id as the Simulator passes it: ev.station_id, maybe None)"),
+    _st("stnet_post_charging_update", STOCHPY, ("StochasticNetwork", "post_charging_update"), "PyStNet K", [],
+        (True, True, None), "StochOps", "StochasticNetwork.post_charging_update"),
 ]
 
 TR_CLASS = {"net_limit_test": _NpTr, "alg_limit_test": _NpTr, "alg_limit_test_linear": _NpTr}
@@ -3078,11 +3378,12 @@ PATHS = {(t.rel, t.path): t for t in TARGETS if t.path is not None and t.select 
 GROUP_IMPORTS = {"Fit": ["AcnModel.Sessions"], "Analysis": ["AcnModel.Analysis"], "Queue": ["AcnModel.Event"],
                  "Tariff": ["AcnModel.Tariff"], "QueueOps": ["AcnModel.Gen.CodePrelude"],
                  "EvseOps": ["AcnModel.Gen.CodePrelude"], "NetOps": ["AcnModel.Gen.CodePrelude", "AcnModel.Gen.CodeEvseOps"],
-                 "SimEvent": ["AcnModel.Gen.CodePrelude"]}
+                 "SimEvent": ["AcnModel.Gen.CodePrelude"],
+                 "StochOps": ["AcnModel.Gen.CodePrelude", "AcnModel.Gen.CodePreludeStoch"]}
 
 
 GROUPS = ["Battery", "Evse", "Sim", "Sorted", "Fit", "Net", "Analysis", "Queue", "Tariff",
-          "Prelude", "QueueOps", "EvseOps", "NetOps", "SimEvent"]  # "SortTable" targets are emitted outside the K-section of Sorted
+          "Prelude", "QueueOps", "EvseOps", "NetOps", "SimEvent", "PreludeStoch", "StochOps"]  # "SortTable" targets are emitted outside the K-section of Sorted
 
 
 _STATUS = {}   # group -> {lean name: "ok" | "untranslated: …"} of the last gen_code(group) of this process
@@ -3091,6 +3392,8 @@ _STATUS = {}   # group -> {lean name: "ok" | "untranslated: …"} of the last ge
 def gen_code(group: str) -> str:
     if group == "Prelude":
         return PRELUDE
+    if group == "PreludeStoch":
+        return PRELUDE_STOCH
     out = ["/- GENERATED by harness/translate_code.py from /repo's working tree — do not edit.",
            "   Mechanical translation of the bodies of small numeric methods (T1c); the tie theorems",
            f"   `Gen.Code.<f> = <hand model>` are in AcnProofs/Lemmas/CodeTie{group}.lean. -/",
